@@ -47,6 +47,7 @@ PROPS = {
                 ignore_foreign=True),
     'C06': dict(suites=[('aclz', []), ('acla', [])], column='acl', relevant=lambda r: True, title='ACL authorization'),
     'C11': dict(suites=[('acla', [])], column='auth', relevant=lambda r: True, title='Authentication and user lifecycle'),
+    'C12': dict(suites=ALL_DATA + [('acla', []), ('wire', [])], column='wire', clscol='wcls', relevant=lambda r: True, title='Wire protocol'),
     'C13': dict(suites=ALL_DATA, column='pure', clscol='pcls', relevant=lambda r: True, title='Read-only commands are pure'),
     'C14': dict(suites=[('hash', [])], column='kv', relevant=lambda r: r['name'] in HASH_CMDS, title='Hash commands'),
     'C15': dict(suites=[('list', [])], column='kv', relevant=lambda r: r['name'] in LIST_CMDS, title='List commands'),
@@ -235,7 +236,7 @@ def run_suite(cx, work, suite, args, seed, tier, replay=None):
         seq, model, detail, f = parse_verdict(l)
         verd[seq] = (model, detail, f)
     for l in open(tr):
-        if l.startswith('Z ') or l.startswith('A '):
+        if l.startswith('Z ') or l.startswith('A ') or l.startswith('W '):
             w = l.rstrip('\n').split(' ')
             seq = w[1]
             m = verd.get(seq, ('?', 'no verdict', {}))
@@ -248,6 +249,10 @@ def run_suite(cx, work, suite, args, seed, tier, replay=None):
                 j = w.index('R', i + 2 + argc)
                 kind, payload = w[j + 1], unx(w[j + 2])
                 name = ' '.join(c.decode('latin1').lower() for c in cmd[:2]) if cmd and cmd[0].lower() in (b'acl', b'pubsub') else (cmd[0].decode('latin1').lower() if cmd else '')
+            elif l.startswith('W '):
+                name = 'wire-' + w[2]
+                kind = 'session'
+                cmd = [unx(x)[:40] for x in w[4:4 + int(w[3])]]
             else:
                 kind = w[-1]
                 name = 'authorize'
@@ -271,8 +276,8 @@ def run_suite(cx, work, suite, args, seed, tier, replay=None):
 
 
 def seq_prefix(seqmap, seqid):
-    if seqid in seqmap and 'z' in seqmap[seqid]:
-        return seqmap[seqid]                      # a single authorization decision
+    if seqid in seqmap and ('z' in seqmap[seqid] or 'writes' in seqmap[seqid]):
+        return seqmap[seqid]                      # a single authorization decision / one wire session
     sid, idx = seqid.rsplit('.', 1)
     s = seqmap.get(sid)
     if s is None:
@@ -490,7 +495,7 @@ def decide(cx, prop, tier, seed, t_start):
     # ---- evidence
     distinct = set()
     for r in rel:
-        if r.get('line') in ('Z', 'A') or r['pre'] != r['post'] or (r['kind'] == 'ok' and r['payload'] not in (b'$-1\r\n', b'')):
+        if r.get('line') in ('Z', 'A', 'W') or r['pre'] != r['post'] or (r['kind'] == 'ok' and r['payload'] not in (b'$-1\r\n', b'')):
             distinct.add((r['name'], len(r['cmd']), r['kind'], r['f'].get(col, 'na'), r['f'].get(clscol, '-'), r['f'].get('shape', '')))
     samples = []
     seen = set()
